@@ -519,8 +519,34 @@ def r9(ctx: Ctx) -> None:
     area_b = ("a", ("s", coll, best), "area")
     area_c = ("a", cand, "area")
     strictly_larger = mk_lt(area_b, area_c)
-    none_yet = mk_lt(best, k_num(0))
-    ok = strictly_larger in facts or none_yet in facts or mk_or([none_yet, strictly_larger]) in facts
+    # 'no trunk recorded yet': a test on the record alone that holds for its initial value (-1, None, ...) and for no index
+    inits = [st.value for st in walk_own(fi.node) if isinstance(st, (ast.Assign, ast.AnnAssign)) and st is not rec and st.value is not None
+             and isinstance(st.targets[0] if isinstance(st, ast.Assign) else st.target, ast.Name)
+             and (st.targets[0] if isinstance(st, ast.Assign) else st.target).id == rec.targets[0].id]
+    from framelint.peval import fold as _fold
+
+    def none_yet(d) -> bool:
+        if len(inits) != 1 or not contains(d, best):
+            return False
+        init = cn.expr(inits[0])
+        if _fold(Sigma(raw_subst={best: init}).apply(d)) != K_TRUE:
+            return False
+        if d in (("cmp", "is", best, K_NONE), ("cmp", "is", K_NONE, best)):
+            return True
+        # a comparison of the record with a constant that is false at index 0 and stays false as the index grows
+        lit, neg = (d[1], True) if d[0] == "not" else (d, False)
+        if lit[0] != "lt0":
+            return False
+        p_ = to_poly(lit[1])
+        coef = p_.t.get(((best, 1),))
+        if coef is None or set(p_.t) - {((best, 1),), ()}:
+            return False
+        decreasing = (coef > 0) != neg
+        return decreasing and _fold(Sigma(raw_subst={best: k_num(0)}).apply(d)) == K_FALSE
+
+    def disjuncts(f):
+        return list(f[1]) if f[0] == "or" else [f]
+    ok = strictly_larger in facts or any(all(none_yet(d) or d == strictly_larger for d in disjuncts(f)) for f in facts if contains(f, best))
     ctx.site(fi.where, "a candidate replaces the recorded trunk only if no trunk was recorded or it is strictly larger", facts=len(facts), ok=ok)
     if not ok:
         ctx.report(fi.where, "trunk-tie-replaced", "a later rectangle of equal area can replace the recorded trunk: after the swap to the front the same list gives the "
